@@ -260,6 +260,18 @@ func genDef(r *hx.Rand, valid bool) (*ss.EventTriggerDefinition, [][]byte) {
 	if !valid && n >= 2 && r.Chance(30) { // duplicate topic BytesEq
 		p := ss.LogPredicate{LogValueRef: ss.LogValueRef{Offset: uint64(r.Intn(4))}, ValuePredicate: ss.ValuePredicate{Op: ss.BytesEq, IntArgs: []*big.Int{}, ByteArgs: [][]byte{word(r, pool)}}}
 		d.LogPredicates[0], d.LogPredicates[1] = p, p
+		if r.Chance(60) {
+			// … with a BytesEq predicate for another topic (or two) between the two
+			mk := func(off uint64) ss.LogPredicate {
+				return ss.LogPredicate{LogValueRef: ss.LogValueRef{Offset: off}, ValuePredicate: ss.ValuePredicate{Op: ss.BytesEq, IntArgs: []*big.Int{}, ByteArgs: [][]byte{word(r, pool)}}}
+			}
+			o1 := (p.LogValueRef.Offset + 1) % 4
+			mid := []ss.LogPredicate{mk(o1)}
+			if r.Bool() {
+				mid = append(mid, mk((p.LogValueRef.Offset+2)%4))
+			}
+			d.LogPredicates = append(append([]ss.LogPredicate{p}, mid...), p)
+		}
 	}
 	return d, pool
 }
